@@ -206,6 +206,10 @@ def run_case(ctx, case):
                 nf = rng.choice((0, 1, 1, 1, 2, 2, 3, 4))
                 fnames = [FILTERS[(q + case['hist']) % len(FILTERS)]] if nf == 1 else \
                     [rng.choice(FILTERS) for _ in range(nf)]
+                if q % 9 == 4:
+                    # a date range (two Initial Date filters, either order), alone or with another filter
+                    fnames = ['Initial Date', 'Initial Date'] + ([rng.choice(FILTERS[:-1])] if rng.random() < 0.4 else [])
+                    rng.shuffle(fnames)
                 if version < (1, 4):
                     fnames = [f for f in fnames if f != 'Sensitive']
                 if version >= (2, 0):
@@ -216,6 +220,9 @@ def run_case(ctx, case):
                 for fn in fnames:
                     if fn == 'Initial Date':
                         dv = rng.choice(dates) + rng.choice((0, 0, 0, -1, 1, 50))
+                        if rng.random() < 0.25:
+                            # range ends at the edges of the time line: the epoch itself, one second after, far future
+                            dv = rng.choice((0, 0, 1, dates[-1] + 10 ** 6, 2 ** 31 - 1))
                         date_vals.append(dv)
                         filt.append(('Initial Date', dv))
                     else:
